@@ -1094,6 +1094,77 @@ theorem filter_id_of_nodup {links : List Link} (h : (links.map (·.id)).Nodup) {
       rw [List.filter_cons, if_neg hne]
       exact ih h.2 hl
 
+/-! ## Revoke -/
+
+/-- The event is a successful revocation of link `L`. -/
+def isRevokeOk (L : Nat) : Op × Res → Bool
+  | (.revoke l _, .revoked) => l == L
+  | _ => false
+
+/-- A successful revocation of `L` leaves `L` dead. -/
+theorem revoke_dead {s : State} (hwf : WF s) {L : Nat} {op : Op}
+    (h : isRevokeOk L (op, (step s op).2) = true) : Dead (step s op).1 L := by
+  cases op with
+  | revoke id ct =>
+    simp only [step] at h ⊢
+    rcases doRevoke_cases s id with he | he
+    · rw [he] at h; simp [isRevokeOk] at h
+    · have hany : s.links.any (fun l => revokeTouches l id) = true := by
+        unfold doRevoke at he
+        split at he
+        · assumption
+        · simp at he
+      rw [he] at h ⊢
+      simp only [isRevokeOk, beq_iff_eq] at h
+      subst h
+      rw [List.any_eq_true] at hany
+      obtain ⟨l0, hl0, ht0⟩ := hany
+      refine ⟨by have := hwf.2 l0 hl0; have := (revoke_not_consumed ht0).1; simp only; omega, ?_⟩
+      intro l' hl' hid
+      simp only [List.mem_filterMap] at hl'
+      obtain ⟨l, hl, hf⟩ := hl'
+      obtain ⟨h1, _, _, hc | hc⟩ := revokeF_some (id := id) hf
+      · rw [hc.2]; exact writes_tags.2.2.2
+      · -- untouched although it carries the id: its arm is not `proceed`, so it is Consumed
+        subst hc
+        have hnt : revokeTouches l' id = false := by
+          cases hb : revokeTouches l' id with
+          | false => rfl
+          | true =>
+            exfalso
+            rw [if_pos hb] at hf
+            cases hm : mkState revokeWrites l'.st.maxTtl ⟨0, 0⟩ 0 with
+            | none => simp [hm] at hf
+            | some y =>
+              simp [hm] at hf
+              have ht := mkState_tag hm
+              rw [writes_tags.2.2.2] at ht
+              have := (revoke_not_consumed hb).2
+              apply this
+              have hy : y = l'.st := congrArg Link.st hf
+              rw [← hy]
+              exact ht
+        unfold revokeTouches at hnt
+        simp only [hid, beq_self_eq_true, Bool.true_and] at hnt
+        cases hs : l'.st <;> simp [hs, LState.tag, revokeArm] at hnt ⊢
+  | init a ttl ct => simp [isRevokeOk] at h
+  | exchange id ct sid =>
+    simp only [step] at h
+    rcases doExchange_cases s id ct sid with ⟨e, he⟩ | ⟨l, _, _, _, he⟩ <;> rw [he] at h <;>
+      simp [isRevokeOk] at h
+  | direct a ct sid => simp [isRevokeOk] at h
+  | setpw tok v ct =>
+    simp only [step] at h
+    rcases doSetpw_cases s tok v ct with ⟨e, he⟩ | he <;> rw [he] at h <;> simp [isRevokeOk] at h
+  | commit tok ct =>
+    simp only [step] at h
+    rcases doCommit_cases s tok ct with ⟨e, he⟩ | ⟨se, _, _, he⟩ | ⟨se, lid, _, _, _, he⟩ <;>
+      rw [he] at h <;> simp [isRevokeOk] at h
+  | cancel tok ct =>
+    simp only [step] at h
+    rcases doCancel_cases s tok ct with ⟨e, he⟩ | ⟨se, _, _, he⟩ | ⟨se, lid, _, _, _, he⟩ <;>
+      rw [he] at h <;> simp [isRevokeOk] at h
+
 theorem wf_run {s : State} (h : WF s) (ops : List Op) : WF (run s ops) := by
   induction ops generalizing s with
   | nil => exact h
